@@ -170,4 +170,100 @@ fn main() {
          pub const VARIANTS: &[VariantInfo] = &[\n{infos}];\n"
     );
     fs::write(out_dir.join("corpus_generated.rs"), generated).unwrap();
+    fs::write(out_dir.join("settings_generated.rs"), settings_knobs()).unwrap();
+}
+
+/// `ParseSettings` is the run-time configuration seam of a parser.  Its knobs are taken from the working tree (public
+/// fields and one-argument builder/setter methods of simple types), so that a simulation can turn them: the properties
+/// quantify over every configuration, not only the default one.  On a tree without knobs this generates the default.
+fn settings_knobs() -> String {
+    let dir = PathBuf::from("/repo/runtime/src");
+    println!("cargo:rerun-if-changed={}", dir.display());
+    let mut text = String::new();
+    let mut files: Vec<_> = fs::read_dir(&dir).map(|d| d.filter_map(|e| e.ok()).map(|e| e.path()).collect()).unwrap_or_default();
+    files.sort();
+    for f in files {
+        if f.extension().map_or(false, |e| e == "rs") {
+            text.push_str(&fs::read_to_string(&f).unwrap_or_default());
+            text.push('\n');
+        }
+    }
+    fn values(ty: &str) -> Option<Vec<&'static str>> {
+        let t: String = ty.chars().filter(|c| !c.is_whitespace()).collect();
+        let ints = ["usize", "u8", "u16", "u32", "u64", "isize", "i8", "i16", "i32", "i64"];
+        if t == "bool" {
+            return Some(vec!["false", "true"]);
+        }
+        if ints.contains(&t.as_str()) {
+            return Some(vec!["0", "1", "2", "3", "8", "100"]);
+        }
+        if let Some(inner) = t.strip_prefix("Option<").and_then(|x| x.strip_suffix('>')) {
+            if inner == "bool" {
+                return Some(vec!["None", "Some(false)", "Some(true)"]);
+            }
+            if ints.contains(&inner) {
+                return Some(vec!["None", "Some(0)", "Some(1)", "Some(2)", "Some(3)", "Some(8)", "Some(100)"]);
+            }
+        }
+        None
+    }
+    let mut knobs: Vec<(String, String, Vec<&'static str>)> = Vec::new(); // (statement template with {v}, description, values)
+    if let Some(start) = text.find("pub struct ParseSettings") {
+        let rest = &text[start..];
+        if let (Some(open), Some(close)) = (rest.find('{'), rest.find('}')) {
+            if open < close {
+                for line in rest[open + 1..close].lines() {
+                    let line = line.trim();
+                    if let Some(decl) = line.strip_prefix("pub ") {
+                        if let Some((name, ty)) = decl.trim_end_matches(',').split_once(':') {
+                            let (name, ty) = (name.trim(), ty.trim());
+                            if name.chars().all(|c| c.is_alphanumeric() || c == '_') {
+                                if let Some(v) = values(ty) {
+                                    knobs.push((format!("s.{name} = {{v}};"), format!("field {name}: {ty}"), v));
+                                }
+                            }
+                        }
+                    }
+                }
+            }
+        }
+    }
+    // methods of `impl ParseSettings`: fn name(self|mut self|&mut self, x: T) [-> Self]
+    let mut at = 0;
+    while let Some(i) = text[at..].find("impl ParseSettings") {
+        let from = at + i;
+        let end = text[from..].find("\n}").map_or(text.len(), |e| from + e);
+        for line in text[from..end].lines() {
+            let line = line.trim();
+            if let Some(sig) = line.strip_prefix("pub fn ") {
+                if let (Some(po), Some(pc)) = (sig.find('('), sig.find(')')) {
+                    let name = sig[..po].trim();
+                    let params: Vec<&str> = sig[po + 1..pc].split(',').map(|x| x.trim()).collect();
+                    if params.len() == 2 && ["self", "mut self", "&mut self"].contains(&params[0]) {
+                        if let Some((_, ty)) = params[1].split_once(':') {
+                            if let Some(v) = values(ty) {
+                                let field_known = knobs.iter().any(|k| k.1.starts_with("field ") && name.ends_with(k.1[6..].split(':').next().unwrap_or("?")));
+                                if !field_known {
+                                    let stmt = if params[0] == "&mut self" { format!("s.{name}({{v}});") } else { format!("s = s.{name}({{v}});") };
+                                    knobs.push((stmt, format!("method {name}({})", ty.trim()), v));
+                                }
+                            }
+                        }
+                    }
+                }
+            }
+        }
+        at = end.min(text.len() - 1).max(from + 1);
+    }
+    let mut out = String::from("/// the knobs of `ParseSettings` found in the working tree, turned by a selector (0 = all defaults)\n#[allow(unused_mut, unused_variables, clippy::all)]\npub fn seeded_settings(sel: u64) -> peginator::ParseSettings {\n    let mut s = peginator::ParseSettings::default();\n    if sel == 0 {\n        return s;\n    }\n    let mut x = sel;\n");
+    for (stmt, _, vals) in &knobs {
+        writeln!(out, "    match x % {} {{", vals.len() + 1).unwrap();
+        for (i, v) in vals.iter().enumerate() {
+            writeln!(out, "        {} => {{ {} }}", i + 1, stmt.replace("{v}", v)).unwrap();
+        }
+        writeln!(out, "        _ => {{}}\n    }}\n    x /= {};", vals.len() + 1).unwrap();
+    }
+    out.push_str("    s\n}\n");
+    writeln!(out, "pub const SETTINGS_KNOBS: &[&str] = &{:?};", knobs.iter().map(|k| k.1.clone()).collect::<Vec<_>>()).unwrap();
+    out
 }
